@@ -77,7 +77,12 @@ func ZZ_C13_factory() {
 		case "boolean":
 			node = NewBooleanNode(vals...)
 		case "ascii":
-			node = NewASCIINode(string(asciiBytes))
+			if rt.Param("via") == 1 {
+				// the same text through the second way to make an ASCII item: filling an unbounded variable
+				node = NewASCIINodeVariable("v", 0, -1).FillVariables(map[string]interface{}{"v": string(asciiBytes)})
+			} else {
+				node = NewASCIINode(string(asciiBytes))
+			}
 		case "i1", "i2", "i4", "i8":
 			node = NewIntNode(w, vals...)
 		case "u1", "u2", "u4", "u8":
